@@ -89,7 +89,6 @@ func checkC01(c *Ctx) {
 	c.Rule("R1.1", "escape discipline: every write to an encoder buffer is a safe constant, a number, pre-escaped bytes, or goes through the escaper", 27)
 	c.Rule("R1.2", "escaper byte table evaluated over all 256 byte values", 3)
 	c.Rule("R1.3", "openers closed on every path; quotes paired around in-string writes; EncodeEntry tail order", 7)
-	c.Rule("R1.4", "AppendObject saves, zeroes, closes and restores the namespace counter on every path", 4)
 	c.Rule("R1.5", "separator established before the first write of every encoder method; ',' only from addElementSeparator; addKey order", 32)
 	c.Rule("R1.6", "every call through an optional sub-encoder function is nil-guarded or defaulted", 6)
 	c.Rule("R1.7", "user sub-encoder calls are followed by the wrote-nothing fallback", 3)
@@ -97,13 +96,14 @@ func checkC01(c *Ctx) {
 	c1Taint(c, "R1.1")
 	c1Escaper(c, "R1.2")
 	c1Pairing(c, "R1.3")
-	c1Namespace(c, "R1.4")
 	c1Separators(c, "R1.5")
 	c1NilGuards(c, "R1.6", true)
 	c1Fallback(c, "R1.7")
 	c1Errors(c, "R1.8")
 	c.Rule("R1.9", "each JSON encoder exclusively owns its pooled buffers (a shared scratch buffer lets one entry's bytes appear inside another's line)", 3)
 	c8Ownership4(c, "R1.9")
+	c.Rule("R1.11", "the namespace counter accounts for exactly the braces still open (an object nested in an open namespace leaves the enclosing ones counted)", 3)
+	c1Namespaces(c, "R1.11")
 	c.Rule("R1.10", "nothing can unwind or bail out between an opener and its closer: user String()/Error()/Errors() calls run under recover; a reflected value is encoded before anything is written", 5)
 	c10Recover(c, "R1.10")
 	c10Reflected(c, "R1.10")
@@ -1029,58 +1029,6 @@ func c1Pairing(c *Ctx, rule string) {
 	}
 }
 
-func c1Namespace(c *Ctx, rule string) {
-	fn := c.Method(CorePath, "jsonEncoder", "AppendObject")
-	je := c.Named(CorePath, "jsonEncoder")
-	if !c.Anchor(rule, "zapcore.jsonEncoder.AppendObject", fn != nil && je != nil) {
-		return
-	}
-	name := fn.String()
-	var marshal, closeNS, closeB ssa.Instruction
-	var zero, restore *ssa.Store
-	for _, cl := range Calls(fn) {
-		if f := CalleeFunc(cl); f != nil {
-			switch f.Name() {
-			case "MarshalLogObject":
-				marshal = cl
-			case "closeOpenNamespaces":
-				closeNS = cl
-			}
-		}
-	}
-	AllInstrs(fn, func(in ssa.Instruction) {
-		if b, ok := appendByteConst(c, in); ok && b == '}' {
-			closeB = in
-		}
-	})
-	for _, st := range FieldStoresOf(fn, je) {
-		if st.Field != "openNamespaces" {
-			continue
-		}
-		if Desc(st.Instr.Val) == "0" {
-			zero = st.Instr
-		} else {
-			restore = st.Instr
-		}
-	}
-	if marshal == nil || closeNS == nil || closeB == nil || zero == nil || restore == nil {
-		c.Bad(rule, name, "shape", fn.Pos(), "AppendObject must zero the namespace counter, marshal, write '}', close the namespaces opened inside and restore the saved counter (found marshal=%v close=%v brace=%v zero=%v restore=%v)", marshal != nil, closeNS != nil, closeB != nil, zero != nil, restore != nil)
-		return
-	}
-	// saved value is a load of the counter taken before it is zeroed
-	sv, isLoad := restore.Val.(*ssa.UnOp)
-	saved := isLoad && Desc(sv) == "enc.openNamespaces" && Dominates(sv, zero)
-	c.Check(saved, rule, name, "saves-before-zero", zero.Pos(), "the outer counter is read before it is zeroed and that very value is stored back")
-	c.Check(Dominates(zero, marshal), rule, name, "zero-before-marshal", zero.Pos(), "the counter is zero while the nested marshaler runs, so only namespaces opened inside are closed here")
-	for _, x := range []struct {
-		i ssa.Instruction
-		n string
-	}{{closeB, "object-closed"}, {closeNS, "inner-namespaces-closed"}, {restore, "counter-restored"}} {
-		c.Check(!ExistsPath(fn, marshal, IsExit, func(i ssa.Instruction) bool { return i == x.i }), rule, name, x.n+"-on-every-path", x.i.Pos(), "after the marshaler returns (with or without error) every path reaches this step before returning")
-	}
-	c.Check(Dominates(closeB, closeNS) && Dominates(closeNS, restore), rule, name, "order", closeB.Pos(), "'}' of the object, then the inner namespaces' closers, then the outer counter is restored")
-}
-
 // ---------------------------------------------------------------------------
 func c1Separators(c *Ctx, rule string) {
 	je := c.Named(CorePath, "jsonEncoder")
@@ -1865,10 +1813,40 @@ func c1Brackets(c *Ctx, rule string) {
 		}
 	}
 	cn := c.Method(CorePath, "jsonEncoder", "closeOpenNamespaces")
+	// closers: functions that only ever write '}' (in a loop, or by calling such a function): they close what the
+	// namespace counter counts; whether they close the right number is decided by the namespace-accounting rule
+	closers := map[*ssa.Function]bool{}
+	if cn != nil {
+		closers[cn] = true
+	}
+	for _, fn := range funcs {
+		rn := RecvNamed(fn)
+		if rn == nil || rn.Obj().Name() != "jsonEncoder" || !mayBracket[fn] {
+			continue
+		}
+		onlyClose, any := true, false
+		AllInstrs(fn, func(in ssa.Instruction) {
+			if alts, ok := constWrite(c, in); ok {
+				for _, a := range alts {
+					for _, x := range a {
+						if isBracket(x) {
+							any = true
+							if x != '}' {
+								onlyClose = false
+							}
+						}
+					}
+				}
+			}
+		})
+		if any && onlyClose && hasLoop(fn) {
+			closers[fn] = true
+		}
+	}
 	n := 0
 	for _, fn := range funcs {
 		rn := RecvNamed(fn)
-		if rn == nil || rn.Obj().Name() != "jsonEncoder" || !mayBracket[fn] || fn == cn || fn.Parent() != nil {
+		if rn == nil || rn.Obj().Name() != "jsonEncoder" || !mayBracket[fn] || closers[fn] || fn.Parent() != nil {
 			continue
 		}
 		if Eligible(fn) && !hasLoop(fn) {
@@ -1877,11 +1855,11 @@ func c1Brackets(c *Ctx, rule string) {
 		name := fn.String()
 		seqs, trunc := ConcPaths(fn, ConcCfg{
 			Prune: true, MaxStates: 300000,
-			Inline: func(h *ssa.Function) bool { return mayBracket[h] && !hasLoop(h) && h != cn },
+			Inline: func(h *ssa.Function) bool { return mayBracket[h] && !hasLoop(h) && !closers[h] },
 			Event: func(in ssa.Instruction, st *ConcState) string {
 				switch x := in.(type) {
 				case *ssa.Call:
-					if cn != nil && StaticCallee(x) == cn {
+					if sc := StaticCallee(x); sc != nil && closers[sc] {
 						return "closeNS"
 					}
 					f := CalleeFunc(x)
